@@ -89,6 +89,9 @@ def run(tier, replay=None):
             p = {"s1": s1, "s2": [0, 0], "s3": s3, "nl": list(nl), "fault": "none", "n": 11}
             files, info = build(twin, p)
             cases.append((p, info, {n: text_of(n, files, p) for n in files}))
+    # files that hold text at identical positions (lints and parse errors on the same line/column of two files)
+    for f in corpus.TWIN_FILES:
+        cases.append(({"fault": "none", "explicit": True}, {"fault": "none"}, dict(f)))
     if replay:
         w = json.load(open(replay))["witness"]
         cases = [(w["plan"], w["info"], w["texts"])]
